@@ -258,6 +258,54 @@ def run_env(ctx, case):
     rng = random.Random(case["seed"])
     instance = gen.build(case["instance"])
     env = make_env(instance, case, rng)
+    render_dir = None
+    if case["seed"] % 8 == 0 and instance.num_operations <= 14:
+        # the environment also renders (GIF) at the end of every episode: each rendering shows
+        # the episode that was just played
+        import shutil
+        import tempfile
+        from job_shop_lib.reinforcement_learning import SingleJobShopGraphEnv
+        from .c16 import builders
+        from job_shop_lib.dispatching import DispatcherObserverConfig
+        from job_shop_lib.reinforcement_learning import IdleTimeReward, MakespanReward
+        render_dir = tempfile.mkdtemp(prefix="jsv-c12-")
+        rw = MakespanReward if case.get("reward", "makespan") == "makespan" else IdleTimeReward
+        env = SingleJobShopGraphEnv(
+            builders()[case["builder"]](instance), [DispatcherObserverConfig(t) for t in case["features"]],
+            reward_function_config=DispatcherObserverConfig(rw),
+            ready_operations_filter=gen.make_filter(case.get("filter")),
+            render_mode="save_gif",
+            render_config={"gif_config": {"gif_path": render_dir + "/episode.gif", "fps": 10}})
+        ctx.count("rendering_envs")
+    try:
+        _run_env_episodes(ctx, case, rng, instance, env, render_dir)
+    finally:
+        if render_dir:
+            shutil.rmtree(render_dir, ignore_errors=True)
+
+
+def _render_and_judge(ctx, env, episode_no):
+    from matplotlib.figure import Figure
+    shown = []
+
+    def plot(schedule, makespan=None, available_operations=None, current_time=None):
+        shown.append(sorted((so.operation.operation_id, so.start_time, so.machine_id)
+                            for lst in schedule.schedule for so in lst))
+        return Figure(figsize=(0.4, 0.3), dpi=20)
+    env.gantt_chart_creator.partial_gantt_chart_plotter = plot
+    env.render()
+    want = sorted((so.operation.operation_id, so.start_time, so.machine_id)
+                  for lst in env.dispatcher.schedule.schedule for so in lst)
+    ctx.count("episode_renderings_judged")
+    if len(shown) != len(want) or (shown and shown[-1] != want):
+        ctx.violation("c12_env_rendering_shows_another_episode",
+                      {"episode": episode_no, "frames": len(shown), "operations": len(want),
+                       "last_frame": shown[-1][:6] if shown else None, "schedule": want[:6]})
+        return False
+    return True
+
+
+def _run_env_episodes(ctx, case, rng, instance, env, render_dir):
     actions = None
     first = None
     for ep in range(case["episodes"]):
@@ -275,7 +323,20 @@ def run_env(ctx, case):
                 done = ret[2]
                 trace.append((env_step_record(env, ret), state_of(env.dispatcher)))
             first = trace
+            if render_dir and not _render_and_judge(ctx, env, ep + 1):
+                break
         else:
+            if render_dir:
+                # later episodes take another route, so that a stale rendering would show
+                acts2 = []
+                done2 = False
+                while not done2:
+                    op2 = rng.choice(env.dispatcher.available_operations())
+                    a2 = (op2.job_id, rng.choice(op2.machines))
+                    done2 = env.step(a2)[2]
+                if not _render_and_judge(ctx, env, ep + 1):
+                    break
+                continue
             for act in actions:
                 ret = env.step(act)
                 trace.append((env_step_record(env, ret), state_of(env.dispatcher)))
